@@ -143,8 +143,46 @@ def _acc_sets(tier):
     return c["acc_sets"]
 
 
+def _pairs(case):
+    """detection of a string must not depend on its neighbours in a list / mapping, nor on when its type was registered:
+    [s1, s2] in one list (both orders), {k1: s1, k2: s2} as a mapping, and the same strings as separate samples must infer one type"""
+    s1, s2, conf = case["s1"], case["s2"], case["conf"]
+    shape = [case["c1"], case["c2"]]
+    viol = []
+
+    def infer(samples, dkf=None, late=()):
+        b = pipeline.build(samples, types=conf, dkf=dkf, late_types=late, do_merge=False, names=False)
+        return repr(ir.canon(b.meta["a"]))
+    try:
+        ref = infer([{"a": [s1]}, {"a": [s2]}])
+        variants = {
+            "one_list": infer([{"a": [s1, s2]}]),
+            "one_list_reversed": infer([{"a": [s2, s1]}]),
+        }
+        ref_map = infer([{"a": {"k1": s1}}, {"a": {"k1": s2}}], dkf=["a"])
+        variants_map = {"one_mapping": infer([{"a": {"k1": s1, "k2": s2}}], dkf=["a"]),
+                        "one_mapping_reversed": infer([{"a": {"k1": s2, "k2": s1}}], dkf=["a"])}
+        late = tuple(t for t in conf if t in pipeline.DATETIME_TYPES) if tuple(conf[-3:]) == pipeline.DATETIME_TYPES else ()
+        if late:
+            variants["late_registration"] = infer([{"a": [s1]}, {"a": [s2]}], late=late)
+            variants["late_registration_one_list"] = infer([{"a": [s1, s2]}], late=late)
+    except Exception as e:
+        return {"obs": ["exc"], "viol": [core.viol("pair_detection_raises", core.exc_site(e), shape, f"{s1!r},{s2!r} conf={conf}: {e}")],
+                "outcome": "raises", "show": str(e)[:80]}
+    for name, got in variants.items():
+        if got != ref:
+            viol.append(core.viol("detection_depends_on_context", name, shape, f"{s1!r}, {s2!r} conf={conf}: separate samples {ref} / {name} {got}"))
+    for name, got in variants_map.items():
+        if got != ref_map:
+            viol.append(core.viol("detection_depends_on_context", name, shape, f"{s1!r}, {s2!r} conf={conf}: separate samples {ref_map} / {name} {got}"))
+    return {"obs": [f"pair:{case['c1']}|{case['c2']}->{ref[:40]}"], "viol": viol, "execs": 7, "trans": 7, "outcome": "pair_same" if not viol else "pair_differs",
+            "show": f"[{s1!r}, {s2!r}] under {conf}: {ref}", "nontrivial": core.digest([s1, s2, conf])}
+
+
 def execute(case):
     kind = case["k"]
+    if kind == "pairs":
+        return _pairs(case)
     case = dict(case)
     tier = case.get("tier", "quick")
     if kind == "detect" and case.get("confs", "all") == "all":
@@ -318,6 +356,20 @@ def run(tier, seed):
             for args in itertools.combinations(conf, k):
                 rcases.append({"k": "resolve", "conf": conf, "args": list(args), "tier": tier})
     for case, res in core.pmap(execute, rcases, chunksize=16):
+        r.add(case, res)
+    # context independence: one representative string per accept signature, all ordered pairs, two registries
+    reps = {}
+    for s0, accs in ctx["acc_sets"]:
+        sig = ",".join(accs)
+        if sig not in reps and len(s0) < 30:
+            reps[sig] = s0
+    reps["<none>"] = "plain text"
+    reps["<long>"] = "y" * 25
+    items = sorted(reps.items())
+    pcases = [{"k": "pairs", "s1": a, "s2": b, "c1": "sig:" + ca, "c2": "sig:" + cb, "conf": list(conf)}
+              for (ca, a), (cb, b) in itertools.permutations(items, 2)
+              for conf in (pipeline.ALL_TYPES, pipeline.DEFAULT_TYPES)]
+    for case, res in core.pmap(execute, pcases, chunksize=8):
         r.add(case, res)
     mcases = [{"k": "remove", "name": n, "tier": tier} for n in NAMES + list(ACTUAL.values())]
     for case, res in core.pmap(execute, mcases, chunksize=1):
